@@ -1221,6 +1221,10 @@ Section Sem.
          recorder objects of Concrete/CPrims.v log their __bool__ calls and are the refutation witness. *)
       Variable tr : val -> bool.
       Hypothesis truth_pure : forall v w0, p_truth v w0 = (POk (tr v), w0).
+      (* the callee semantics of the instrumented side ([calli]) and of the reference side ([call], the variable
+         of section Ref) agree: instantiated by induction on the call depth in refine_fun *)
+      Variable calli : nat -> list val -> M val.
+      Hypothesis Hcall : forall f a, meq (calli f a) (call f a).
 
       Lemma set_w_same (s : st) : set_w s (w s) = s.
       Proof. destruct s; reflexivity. Qed.
@@ -1228,10 +1232,13 @@ Section Sem.
       Lemma truth_ret v : meq (truth v) (ret (tr v)).
       Proof. intros s. unfold truth, prim, ret. rewrite truth_pure, set_w_same. reflexivity. Qed.
 
-      Notation ev_ := (eval call).
-      Notation evt_ := (eval_test call).
+      Lemma do_call_eq f a : meq (do_call calli f a) (r_do_call f a).
+      Proof. unfold do_call, r_do_call. destruct (as_fun f); [apply Hcall|reflexivity]. Qed.
 
-      Lemma eval_unfold e : eval call e = eval_body call (eval call) (eval_test call) (eval_list call) (eval_cmps call) (eval_rcmps call) e.
+      Notation ev_ := (eval calli).
+      Notation evt_ := (eval_test calli).
+
+      Lemma eval_unfold e : eval calli e = eval_body calli (eval calli) (eval_test calli) (eval_list calli) (eval_cmps calli) (eval_rcmps calli) e.
       Proof. destruct e; reflexivity. Qed.
 
       (* in a boolean context an expression is worth the truth of its value (for pure truth tests) *)
@@ -1258,20 +1265,20 @@ Section Sem.
       Qed.
 
       Lemma eval_test_unfold e :
-        eval_test call e =
+        eval_test calli e =
         match e with
-        | EBool _ BAnd a b => bind (eval_test call a) (fun t => if t then eval_test call b else ret false)
-        | EBool _ BOr a b => bind (eval_test call a) (fun t => if t then ret true else eval_test call b)
-        | EUn _ UNot a => bind (eval_test call a) (fun t => ret (negb t))
-        | EIfExp _ c a b => bind (eval_test call c) (fun t => if t then eval_test call a else eval_test call b)
-        | _ => bind (eval call e) (fun v => truth v)
+        | EBool _ BAnd a b => bind (eval_test calli a) (fun t => if t then eval_test calli b else ret false)
+        | EBool _ BOr a b => bind (eval_test calli a) (fun t => if t then ret true else eval_test calli b)
+        | EUn _ UNot a => bind (eval_test calli a) (fun t => ret (negb t))
+        | EIfExp _ c a b => bind (eval_test calli c) (fun t => if t then eval_test calli a else eval_test calli b)
+        | _ => bind (eval calli e) (fun v => truth v)
         end.
       Proof. destruct e; try reflexivity; try (destruct o; reflexivity). Qed.
 
-      Lemma eval_test_value : forall e, meq (eval_test call e) (bind (eval call e) (fun v => ret (tr v))).
+      Lemma eval_test_value : forall e, meq (eval_test calli e) (bind (eval calli e) (fun v => ret (tr v))).
       Proof.
         assert (Hdef : forall e, jumpy e = false ->
-                  meq (eval_test call e) (bind (eval call e) (fun v => ret (tr v)))).
+                  meq (eval_test calli e) (bind (eval calli e) (fun v => ret (tr v)))).
         { intros e Hj. rewrite eval_test_unfold.
           destruct e; try discriminate Hj; try (destruct o; try discriminate Hj);
             (apply bind_cong; [reflexivity|intros v; apply truth_ret]). }
@@ -1421,7 +1428,7 @@ Section Sem.
       Proof. induction r as [|o e r IH]; simpl; [reflexivity|]. rewrite IH. reflexivity. Qed.
 
       Lemma eval_list_unfold es :
-        eval_list call es = match es with Enil => ret [] | Econs e r => bind (eval call e) (fun v => bind (eval_list call r) (fun vs => ret (v :: vs))) end.
+        eval_list calli es = match es with Enil => ret [] | Econs e r => bind (eval calli e) (fun v => bind (eval_list calli r) (fun vs => ret (v :: vs))) end.
       Proof. destruct es; reflexivity. Qed.
       Lemma reval_list_unfold c es :
         reval_list c es = match es with Enil => ret [] | Econs e r => bind (reval c e) (fun v => bind (reval_list c r) (fun vs => ret (v :: vs))) end.
@@ -1434,21 +1441,122 @@ Section Sem.
         end.
 
       Lemma eval_cmps_unfold l r :
-        eval_cmps call l r =
+        eval_cmps calli l r =
         match r with
         | Cnil => ret l
-        | Ccons o e Cnil => bind (eval call e) (fun rv => prim (p_cmp o l rv))
+        | Ccons o e Cnil => bind (eval calli e) (fun rv => prim (p_cmp o l rv))
         | Ccons o e rest =>
-          bind (eval call e) (fun rv => bind (prim (p_cmp o l rv)) (fun v => bind (truth v) (fun t =>
-            if t then eval_cmps call rv rest else ret v)))
+          bind (eval calli e) (fun rv => bind (prim (p_cmp o l rv)) (fun v => bind (truth v) (fun t =>
+            if t then eval_cmps calli rv rest else ret v)))
         end.
       Proof. destruct r as [|o e [|o2 e2 r2]]; reflexivity. Qed.
 
+      (* ---- source expressions mean the same under the two callee semantics (used where the reference
+              evaluates a sub-expression that the instrumenter leaves untouched: augmented-assignment targets) *)
+      Lemma eval_unfold_g cl e : eval cl e = eval_body cl (eval cl) (eval_test cl) (eval_list cl) (eval_cmps cl) (eval_rcmps cl) e.
+      Proof. destruct e; reflexivity. Qed.
+      Lemma eval_test_unfold_g cl e :
+        eval_test cl e =
+        match e with
+        | EBool _ BAnd a b => bind (eval_test cl a) (fun t => if t then eval_test cl b else ret false)
+        | EBool _ BOr a b => bind (eval_test cl a) (fun t => if t then ret true else eval_test cl b)
+        | EUn _ UNot a => bind (eval_test cl a) (fun t => ret (negb t))
+        | EIfExp _ c a b => bind (eval_test cl c) (fun t => if t then eval_test cl a else eval_test cl b)
+        | _ => bind (eval cl e) (fun v => truth v)
+        end.
+      Proof. destruct e; try reflexivity; try (destruct o; reflexivity). Qed.
+      Lemma eval_list_unfold_g cl es :
+        eval_list cl es = match es with Enil => ret [] | Econs e r => bind (eval cl e) (fun v => bind (eval_list cl r) (fun vs => ret (v :: vs))) end.
+      Proof. destruct es; reflexivity. Qed.
+      Lemma eval_cmps_unfold_g cl l r :
+        eval_cmps cl l r =
+        match r with
+        | Cnil => ret l
+        | Ccons o e Cnil => bind (eval cl e) (fun rv => prim (p_cmp o l rv))
+        | Ccons o e rest =>
+          bind (eval cl e) (fun rv => bind (prim (p_cmp o l rv)) (fun v => bind (truth v) (fun t =>
+            if t then eval_cmps cl rv rest else ret v)))
+        end.
+      Proof. destruct r as [|o e [|o2 e2 r2]]; reflexivity. Qed.
+
+      Ltac cg := repeat first [ reflexivity | eassumption
+                              | apply bind_cong; [|intros ?]
+                              | match goal with |- meq (if ?b then _ else _) (if ?b then _ else _) => destruct b end ].
+      Lemma src_cong :
+        (forall e, src_e e = true -> meq (eval calli e) (eval call e) /\ meq (eval_test calli e) (eval_test call e))
+        /\ (forall es, src_es es = true -> meq (eval_list calli es) (eval_list call es))
+        /\ (forall r, src_c r = true -> forall l, meq (eval_cmps calli l r) (eval_cmps call l r))
+        /\ (forall r : rcmps, True).
+      Proof.
+        assert (Hdef : forall e, meq (eval calli e) (eval call e) ->
+                  meq (bind (eval calli e) (fun v => truth v)) (bind (eval call e) (fun v => truth v))).
+        { intros e E. rewrite E. reflexivity. }
+        apply expr_all_ind; try (intros; discriminate); try (intros; exact I).
+        - (* EConst *) intros n k _. split; [reflexivity|]. rewrite (eval_test_unfold_g calli), (eval_test_unfold_g call). reflexivity.
+        - (* EName *) intros n x b _. split; [reflexivity|]. rewrite (eval_test_unfold_g calli), (eval_test_unfold_g call). reflexivity.
+        - (* EUn *) intros n o a IHa Hs. simpl in Hs. destruct (IHa Hs) as [E1 E2].
+          assert (E : meq (eval calli (EUn n o a)) (eval call (EUn n o a))).
+          { rewrite (eval_unfold_g calli), (eval_unfold_g call). cbn [eval_body]. destruct o; cg. }
+          split; [exact E|]. rewrite (eval_test_unfold_g calli), (eval_test_unfold_g call). destruct o; try (apply Hdef; exact E). cg.
+        - (* EBin *) intros n o a IHa b IHb Hs. simpl in Hs. apply andb_true_iff in Hs; destruct Hs as [Hs1 Hs2].
+          destruct (IHa Hs1) as [A1 A2]. destruct (IHb Hs2) as [B1 B2].
+          assert (E : meq (eval calli (EBin n o a b)) (eval call (EBin n o a b))).
+          { rewrite (eval_unfold_g calli), (eval_unfold_g call). cbn [eval_body]. cg. }
+          split; [exact E|]. rewrite (eval_test_unfold_g calli), (eval_test_unfold_g call). apply Hdef; exact E.
+        - (* EBool *) intros n o a IHa b IHb Hs. simpl in Hs. apply andb_true_iff in Hs; destruct Hs as [Hs1 Hs2].
+          destruct (IHa Hs1) as [A1 A2]. destruct (IHb Hs2) as [B1 B2].
+          split.
+          + rewrite (eval_unfold_g calli), (eval_unfold_g call). cbn [eval_body]. cg.
+          + rewrite (eval_test_unfold_g calli), (eval_test_unfold_g call). destruct o; cg.
+        - (* ECmp *) intros n a IHa r IHr Hs. simpl in Hs. apply andb_true_iff in Hs; destruct Hs as [Hs1 Hs2].
+          destruct (IHa Hs1) as [A1 A2]. specialize (IHr Hs2).
+          assert (E : meq (eval calli (ECmp n a r)) (eval call (ECmp n a r))).
+          { rewrite (eval_unfold_g calli), (eval_unfold_g call). cbn [eval_body]. apply bind_cong; [exact A1|intros l; apply IHr]. }
+          split; [exact E|]. rewrite (eval_test_unfold_g calli), (eval_test_unfold_g call). apply Hdef; exact E.
+        - (* EIfExp *) intros n c IHc a IHa b IHb Hs. simpl in Hs. apply andb_true_iff in Hs; destruct Hs as [Hs12 Hs3].
+          apply andb_true_iff in Hs12; destruct Hs12 as [Hs1 Hs2].
+          destruct (IHc Hs1) as [C1 C2]. destruct (IHa Hs2) as [A1 A2]. destruct (IHb Hs3) as [B1 B2].
+          split.
+          + rewrite (eval_unfold_g calli), (eval_unfold_g call). cbn [eval_body]. cg.
+          + rewrite (eval_test_unfold_g calli), (eval_test_unfold_g call). cg.
+        - (* EAttr *) intros n a IHa x Hs. simpl in Hs. destruct (IHa Hs) as [A1 A2].
+          assert (E : meq (eval calli (EAttr n a x)) (eval call (EAttr n a x))).
+          { rewrite (eval_unfold_g calli), (eval_unfold_g call). cbn [eval_body]. cg. }
+          split; [exact E|]. rewrite (eval_test_unfold_g calli), (eval_test_unfold_g call). apply Hdef; exact E.
+        - (* ESub *) intros n a IHa i IHi Hs. simpl in Hs. apply andb_true_iff in Hs; destruct Hs as [Hs1 Hs2].
+          destruct (IHa Hs1) as [A1 A2]. destruct (IHi Hs2) as [B1 B2].
+          assert (E : meq (eval calli (ESub n a i)) (eval call (ESub n a i))).
+          { rewrite (eval_unfold_g calli), (eval_unfold_g call). cbn [eval_body]. cg. }
+          split; [exact E|]. rewrite (eval_test_unfold_g calli), (eval_test_unfold_g call). apply Hdef; exact E.
+        - (* ECall *) intros n f IHf args IHargs Hs. simpl in Hs. apply andb_true_iff in Hs; destruct Hs as [Hs1 Hs2].
+          destruct (IHf Hs1) as [A1 A2]. specialize (IHargs Hs2).
+          assert (E : meq (eval calli (ECall n f args)) (eval call (ECall n f args))).
+          { rewrite (eval_unfold_g calli), (eval_unfold_g call). cbn [eval_body]. apply bind_cong; [exact A1|intros fv]. apply bind_cong; [exact IHargs|intros vs].
+            unfold do_call. destruct (as_fun fv); [apply Hcall|reflexivity]. }
+          split; [exact E|]. rewrite (eval_test_unfold_g calli), (eval_test_unfold_g call). apply Hdef; exact E.
+        - (* EList *) intros n es IHes Hs. simpl in Hs. specialize (IHes Hs).
+          assert (E : meq (eval calli (EList n es)) (eval call (EList n es))).
+          { rewrite (eval_unfold_g calli), (eval_unfold_g call). cbn [eval_body]. cg. }
+          split; [exact E|]. rewrite (eval_test_unfold_g calli), (eval_test_unfold_g call). apply Hdef; exact E.
+        - (* ETuple *) intros n es IHes Hs. simpl in Hs. specialize (IHes Hs).
+          assert (E : meq (eval calli (ETuple n es)) (eval call (ETuple n es))).
+          { rewrite (eval_unfold_g calli), (eval_unfold_g call). cbn [eval_body]. cg. }
+          split; [exact E|]. rewrite (eval_test_unfold_g calli), (eval_test_unfold_g call). apply Hdef; exact E.
+        - (* Enil *) intros _. reflexivity.
+        - (* Econs *) intros e IHe r IHr Hs. simpl in Hs. apply andb_true_iff in Hs; destruct Hs as [Hs1 Hs2].
+          destruct (IHe Hs1) as [A1 A2]. specialize (IHr Hs2). rewrite (eval_list_unfold_g calli), (eval_list_unfold_g call). cg.
+        - (* Cnil *) intros _ l. reflexivity.
+        - (* Ccons *) intros o e IHe r IHr Hs l. simpl in Hs. apply andb_true_iff in Hs; destruct Hs as [Hs1 Hs2].
+          destruct (IHe Hs1) as [A1 A2]. specialize (IHr Hs2). rewrite (eval_cmps_unfold_g calli), (eval_cmps_unfold_g call).
+          destruct r as [|o2 e2 r2]; [cg|].
+          apply bind_cong; [exact A1|intros rv]. cg. apply IHr.
+      Qed.
+
       Lemma eval_rcmps_unfold r :
-        eval_rcmps call r =
+        eval_rcmps calli r =
         match r with
         | RCnil => ret []
-        | RCcons code e rest => bind (eval call e) (fun v => bind (eval_rcmps call rest) (fun vs => ret ((code, v) :: vs)))
+        | RCcons code e rest => bind (eval calli e) (fun v => bind (eval_rcmps calli rest) (fun vs => ret ((code, v) :: vs)))
         end.
       Proof. destruct r; reflexivity. Qed.
 
@@ -1500,12 +1608,12 @@ Section Sem.
       Proof. reflexivity. Qed.
 
       Theorem refine_expr :
-        (forall e, src_e e = true -> ok_e e = true -> forall c, meq (eval call (instr_e H (ic c) e)) (reval c e))
-        /\ (forall es, src_es es = true -> ok_es es = true -> forall c, meq (eval_list call (instr_es H (ic c) es)) (reval_list c es))
+        (forall e, src_e e = true -> ok_e e = true -> forall c, meq (eval calli (instr_e H (ic c) e)) (reval c e))
+        /\ (forall es, src_es es = true -> ok_es es = true -> forall c, meq (eval_list calli (instr_es H (ic c) es)) (reval_list c es))
         /\ (forall r, src_c r = true -> ok_c r = true -> forall c,
               (cmps_cov r = false -> forall n ann first l,
-                 meq (eval_cmps call l (instr_c H (ic c) r)) (reval_cmps c n false ann first l r))
-              /\ meq (eval_rcmps call (instr_rc H (ic c) r)) (rlinks c r))
+                 meq (eval_cmps calli l (instr_c H (ic c) r)) (reval_cmps c n false ann first l r))
+              /\ meq (eval_rcmps calli (instr_rc H (ic c) r)) (rlinks c r))
         /\ (forall r : rcmps, True).
       Proof.
         apply expr_all_ind; try (intros; discriminate); try (intros; exact I).
@@ -1615,8 +1723,8 @@ Section Sem.
           rewrite reval_unfold. cbn [reval_body]. rewrite instr_ECall. change (with_str (ic c)) with (ic (rc_str c)).
           change (sel H "pre_call" || sel H "post_call") with (cov "pre_call" || cov "post_call").
           destruct (cov "pre_call" || cov "post_call") eqn:C; rewrite eval_unfold; cbn [eval_body]; rewrite IHf; mstep; rewrite IHargs; mstep.
-          + unfold rt_call. rewrite announce_on_cf. mnorm. mstep. msteps. reflexivity.
-          + reflexivity.
+          + unfold rt_call. rewrite announce_on_cf. mnorm. mstep. mstep. mstep. rewrite do_call_eq. msteps. reflexivity.
+          + apply do_call_eq.
         - (* EList *) intros n es IHes Hs Ho c. simpl in Hs, Ho. specialize (IHes Hs Ho c).
           rewrite reval_unfold. cbn [reval_body]. rewrite instr_EList. cbn [in_target ic].
           change (sel H "_list") with (cov "_list").
@@ -1683,14 +1791,14 @@ Section Sem.
       Notation REL_ := (proj1 (proj2 refine_expr)).
 
       Lemma refine_oe o c : src_oe o = true -> ok_oe o = true ->
-        meq (eval_opt call (instr_oe H (ic c) o)) (reval_opt c o).
+        meq (eval_opt calli (instr_oe H (ic c) o)) (reval_opt c o).
       Proof.
         destruct o as [e|]; intros Hs Ho; [|reflexivity]. simpl in *. unfold eval_opt, reval_opt.
         rewrite (RE_ e Hs Ho c). reflexivity.
       Qed.
 
       Lemma store_refine t v : src_t t = true -> ok_t t = true ->
-        meq (store call (instr_t H t) v) (rstore t v).
+        meq (store calli (instr_t H t) v) (rstore t v).
       Proof.
         destruct t as [x|n e x|n e i]; intros Hs Ho; simpl in *; [reflexivity| |].
         - change tctx with (ic rc_tgt). rewrite (RE_ e Hs Ho rc_tgt). reflexivity.
@@ -1699,22 +1807,22 @@ Section Sem.
       Qed.
 
       Lemma store_all_refine ts v : forallb src_t ts = true -> forallb ok_t ts = true ->
-        meq (store_all call (map (instr_t H) ts) v) (rstore_all ts v).
+        meq (store_all calli (map (instr_t H) ts) v) (rstore_all ts v).
       Proof.
         induction ts as [|t r IH]; intros Hs Ho; simpl in *; [reflexivity|].
         apply andb_true_iff in Hs; destruct Hs as [Hs1 Hs2]. apply andb_true_iff in Ho; destruct Ho as [Ho1 Ho2].
         rewrite (store_refine t v Hs1 Ho1). mstep. apply IH; assumption.
       Qed.
 
-      Lemma exec_list_nil : exec_list call bound Snil = ret tt. Proof. reflexivity. Qed.
-      Lemma exec_list_cons s r : exec_list call bound (Scons s r) = bind (exec call bound s) (fun _ => exec_list call bound r).
+      Lemma exec_list_nil : exec_list calli bound Snil = ret tt. Proof. reflexivity. Qed.
+      Lemma exec_list_cons s r : exec_list calli bound (Scons s r) = bind (exec calli bound s) (fun _ => exec_list calli bound r).
       Proof. reflexivity. Qed.
       Lemma rexec_list_nil k : rexec_list k Snil = ret tt. Proof. reflexivity. Qed.
       Lemma rexec_list_cons k s r : rexec_list k (Scons s r) = bind (rexec k s) (fun _ => rexec_list k r).
       Proof. reflexivity. Qed.
 
       Lemma exec_list_app a b :
-        meq (exec_list call bound (sapp a b)) (bind (exec_list call bound a) (fun _ => exec_list call bound b)).
+        meq (exec_list calli bound (sapp a b)) (bind (exec_list calli bound a) (fun _ => exec_list calli bound b)).
       Proof.
         induction a as [|s r IH].
         - change (sapp Snil b) with b. rewrite exec_list_nil, bind_ret_l. reflexivity.
@@ -1723,7 +1831,7 @@ Section Sem.
       Qed.
 
       Lemma test_covered leaf n c : src_e c = true -> ok_e c = true ->
-        meq (bind (bind (eval call (instr_e H c0 c)) (fun v => rt_enter leaf n v)) (fun r => truth r))
+        meq (bind (bind (eval calli (instr_e H c0 c)) (fun v => rt_enter leaf n v)) (fun r => truth r))
             (bind (test_value rc0 c) (fun vt =>
              bind (announce true true n) (fun _ =>
              bind (ev "enter_control_flow" n [AV (fst vt)]) (fun hi =>
@@ -1736,7 +1844,7 @@ Section Sem.
       Qed.
 
       Lemma test_uncovered c : src_e c = true -> ok_e c = true ->
-        meq (eval_test call (instr_e H c0 c)) (bind (reval_tv rc0 c) (fun ct => ret (snd ct))).
+        meq (eval_test calli (instr_e H c0 c)) (bind (reval_tv rc0 c) (fun ct => ret (snd ct))).
       Proof.
         intros Hs Ho. rewrite eval_test_value. change c0 with (ic rc0). rewrite (RE_ c Hs Ho rc0).
         setoid_rewrite reval_tv_value. mnorm. reflexivity.
@@ -1744,7 +1852,7 @@ Section Sem.
 
       Lemma rt_event_exit ep leaf n :
         (ep = "_exit_if_" /\ leaf = "exit_if") ->
-        meq (bind (bind (eval call (REvent ep n)) (fun _ => ret tt)) (fun _ => ret tt)) (exit_event leaf true n).
+        meq (bind (bind (eval calli (REvent ep n)) (fun _ => ret tt)) (fun _ => ret tt)) (exit_event leaf true n).
       Proof.
         intros [-> ->]. rewrite eval_unfold. cbn [eval_body]. unfold rt_event, exit_event. rewrite announce_on_cf. mnorm.
         mstep. mstep. mstep. mstep. reflexivity.
@@ -1802,8 +1910,8 @@ Section Sem.
       Proof. reflexivity. Qed.
 
       Lemma exec_SIf n c body orelse :
-        exec call bound (SIf n c body orelse) =
-        bind (eval_test call c) (fun t => if t then exec_list call bound body else exec_list call bound orelse).
+        exec calli bound (SIf n c body orelse) =
+        bind (eval_test calli c) (fun t => if t then exec_list calli bound body else exec_list calli bound orelse).
       Proof. reflexivity. Qed.
       Lemma rexec_SIf k n c body orelse :
         rexec k (SIf n c body orelse) =
@@ -1823,18 +1931,18 @@ Section Sem.
         match j with
         | 0 => fun s => (Fuel, s)
         | S j' =>
-          bind (eval_test call c) (fun t =>
+          bind (eval_test calli c) (fun t =>
           if t then
-            bind (catch (exec_list call bound body)) (fun r =>
+            bind (catch (exec_list calli bound body)) (fun r =>
             match r with
             | Ok _ | Cnt => wloop j'
             | Brk => ret tt
             | other => reraise other
             end)
-          else exec_list call bound orelse)
+          else exec_list calli bound orelse)
         end.
       End WLoop.
-      Lemma exec_SWhile n c body orelse : exec call bound (SWhile n c body orelse) = wloop c body orelse bound.
+      Lemma exec_SWhile n c body orelse : exec calli bound (SWhile n c body orelse) = wloop c body orelse bound.
       Proof. reflexivity. Qed.
 
       Section RWLoop.
@@ -1875,10 +1983,10 @@ Section Sem.
         | S j' =>
           bind (for_next gen itv iterable) (fun nx =>
           match nx with
-          | None => exec_list call bound orelse
+          | None => exec_list calli bound orelse
           | Some v =>
             bind (assign x v) (fun _ =>
-            bind (catch (exec_list call bound body)) (fun r =>
+            bind (catch (exec_list calli bound body)) (fun r =>
             match r with
             | Ok _ | Cnt => floop j'
             | Brk => ret tt
@@ -1888,8 +1996,8 @@ Section Sem.
         end.
       End FLoop.
       Lemma exec_SFor n x it body orelse :
-        exec call bound (SFor n x it body orelse) =
-        bind (eval call (match it with RGen _ inner => inner | _ => it end)) (fun iterable =>
+        exec calli bound (SFor n x it body orelse) =
+        bind (eval calli (match it with RGen _ inner => inner | _ => it end)) (fun iterable =>
         bind (prim (p_iter iterable)) (fun itv =>
         floop x (match it with RGen n _ => Some n | _ => None end) itv iterable body orelse bound)).
       Proof. reflexivity. Qed.
@@ -1947,14 +2055,14 @@ Section Sem.
       Qed.
 
       Lemma exec_STry n body hs orelse final :
-        exec call bound (STry n body hs orelse final) =
-        bind (catch (exec_list call bound body)) (fun r =>
+        exec calli bound (STry n body hs orelse final) =
+        bind (catch (exec_list calli bound body)) (fun r =>
         bind (catch (match r with
-                     | Ok _ => exec_list call bound orelse
-                     | Exc e => exec_handlers call bound e hs
+                     | Ok _ => exec_list calli bound orelse
+                     | Exc e => exec_handlers calli bound e hs
                      | other => reraise other
                      end)) (fun r' =>
-        bind (catch (exec_list call bound final)) (fun rf =>
+        bind (catch (exec_list calli bound final)) (fun rf =>
         match rf with Ok _ => reraise r' | other => reraise other end))).
       Proof. reflexivity. Qed.
       Lemma rexec_STry k n body hs orelse final :
@@ -1972,21 +2080,21 @@ Section Sem.
       Proof. reflexivity. Qed.
       (* the handler "except: raise" that the instrumenter adds to a handler-less try statement *)
       Lemma bare_reraise e :
-        meq (exec_handlers call bound e (Hcons None None (s1 (SRaise 0 None None)) Hnil)) (raise e).
+        meq (exec_handlers calli bound e (Hcons None None (s1 (SRaise 0 None None)) Hnil)) (raise e).
       Proof. intros [w1 g1 f1 x1 e1]. reflexivity. Qed.
-      Lemma exec_handlers_nil e : exec_handlers call bound e Hnil = raise e. Proof. reflexivity. Qed.
+      Lemma exec_handlers_nil e : exec_handlers calli bound e Hnil = raise e. Proof. reflexivity. Qed.
       Lemma rexec_handlers_nil k t e : rexec_handlers k t e Hnil = raise e. Proof. reflexivity. Qed.
 
       Lemma exec_handlers_cons e ty name body rest :
-        exec_handlers call bound e (Hcons ty name body rest) =
-        bind (match ty with None => ret true | Some te => bind (eval call te) (fun cls => prim (p_exc_match e cls)) end) (fun m =>
+        exec_handlers calli bound e (Hcons ty name body rest) =
+        bind (match ty with None => ret true | Some te => bind (eval calli te) (fun cls => prim (p_exc_match e cls)) end) (fun m =>
         if m then
           bind (match name with Some x => assign x e | None => ret tt end) (fun _ =>
           bind (push_exc e) (fun _ =>
-          bind (catch (exec_list call bound body)) (fun r =>
+          bind (catch (exec_list calli bound body)) (fun r =>
           bind pop_exc (fun _ =>
           bind (match name with Some x => unbind x | None => ret tt end) (fun _ => reraise r)))))
-        else exec_handlers call bound e rest).
+        else exec_handlers calli bound e rest).
       Proof. reflexivity. Qed.
       Lemma rexec_handlers_cons k tryn e ty name body rest :
         rexec_handlers k tryn e (Hcons ty name body rest) =
@@ -2007,10 +2115,10 @@ Section Sem.
       Proof. reflexivity. Qed.
 
       Theorem refine_stmt :
-        (forall s, src_s s = true -> ok_s s = true -> forall k, meq (exec call bound (instr_s H (kc k) s)) (rexec k s))
-        /\ (forall ss, src_ss ss = true -> ok_ss ss = true -> forall k, meq (exec_list call bound (instr_ss H (kc k) ss)) (rexec_list k ss))
+        (forall s, src_s s = true -> ok_s s = true -> forall k, meq (exec calli bound (instr_s H (kc k) s)) (rexec k s))
+        /\ (forall ss, src_ss ss = true -> ok_ss ss = true -> forall k, meq (exec_list calli bound (instr_ss H (kc k) ss)) (rexec_list k ss))
         /\ (forall hs, src_hs hs = true -> ok_hs hs = true -> forall k tryn e,
-              meq (exec_handlers call bound e (instr_hs H (kc k) tryn hs)) (rexec_handlers k tryn e hs)).
+              meq (exec_handlers calli bound e (instr_hs H (kc k) tryn hs)) (rexec_handlers k tryn e hs)).
       Proof.
         apply stmt_all_ind.
         - (* SExpr *) intros e Hs Ho k. simpl in Hs, Ho. cbn [instr_s exec rexec].
@@ -2030,18 +2138,21 @@ Section Sem.
           rewrite Ho2. cbn [exec]. Transparent raug_events. unfold raug_events. Opaque raug_events.
           destruct t as [x|tn be x|tn be ie].
           + mstep. rewrite (RE_ e Hs2 Ho1 (rc_str rc0)). mstep. mstep. mnorm. try rewrite bind_ret_l. reflexivity.
-          + mstep. mstep. rewrite (RE_ e Hs2 Ho1 (rc_str rc0)). mstep. mstep. mnorm. try rewrite bind_ret_l. reflexivity.
-          + mstep. mstep. mstep. rewrite (RE_ e Hs2 Ho1 (rc_str rc0)). mstep. mstep. mnorm. try rewrite bind_ret_l. reflexivity.
+          + simpl in Hs1. rewrite (proj1 (proj1 src_cong be Hs1)).
+            mstep. mstep. rewrite (RE_ e Hs2 Ho1 (rc_str rc0)). mstep. mstep. mnorm. try rewrite bind_ret_l. reflexivity.
+          + simpl in Hs1. apply andb_true_iff in Hs1; destruct Hs1 as [Hb Hi].
+            rewrite (proj1 (proj1 src_cong be Hb)). mstep. rewrite (proj1 (proj1 src_cong ie Hi)).
+            mstep. mstep. rewrite (RE_ e Hs2 Ho1 (rc_str rc0)). mstep. mstep. mnorm. try rewrite bind_ret_l. reflexivity.
         Opaque exec exec_list exec_handlers rexec rexec_list rexec_handlers.
         - (* SIf *) intros n c body IHb orelse IHo Hs Ho k. simpl in Hs, Ho.
           apply andb_true_iff in Hs; destruct Hs as [Hs12 Hs3]. apply andb_true_iff in Hs12; destruct Hs12 as [Hs1 Hs2].
           apply andb_true_iff in Ho; destruct Ho as [Ho12 Ho3]. apply andb_true_iff in Ho12; destruct Ho12 as [Ho1 Ho2].
           specialize (IHb Hs2 Ho2 k). specialize (IHo Hs3 Ho3 k).
           rewrite instr_SIf, rexec_SIf. cbv zeta. change (sel H "enter_if") with (cov "enter_if"). change (sel H "exit_if") with (cov "exit_if").
-          assert (Hexit : forall ss, meq (exec_list call bound (sapp ss (s1 (rstmt (REvent "_exit_if_" n)))))
-                                         (bind (exec_list call bound ss) (fun _ => exit_event "exit_if" true n))).
+          assert (Hexit : forall ss, meq (exec_list calli bound (sapp ss (s1 (rstmt (REvent "_exit_if_" n)))))
+                                         (bind (exec_list calli bound ss) (fun _ => exit_event "exit_if" true n))).
           { intros ss. rewrite exec_list_app. mstep. unfold s1, rstmt. rewrite exec_list_cons, exec_list_nil.
-            change (exec call bound (SExpr (REvent "_exit_if_" n))) with (bind (eval call (REvent "_exit_if_" n)) (fun _ => ret tt)).
+            change (exec calli bound (SExpr (REvent "_exit_if_" n))) with (bind (eval calli (REvent "_exit_if_" n)) (fun _ => ret tt)).
             apply rt_event_exit. split; reflexivity. }
           assert (Hoff : forall m : M unit, meq (bind m (fun _ => exit_event "exit_if" false n)) m).
           { intros m. unfold exit_event. rewrite <- (bind_ret_r m) at 2. mstep. destruct a. reflexivity. }
@@ -2062,7 +2173,7 @@ Section Sem.
           rewrite instr_SWhile, exec_SWhile, rexec_SWhile. cbv zeta.
           change (sel H "enter_while") with (cov "enter_while"). change (sel H "normal_exit_while") with (cov "normal_exit_while").
           change {| loop := Some (n, 0%Z); fn := fn (kc k) |} with (kc {| r_loop := Some (n, false); r_fn := r_fn k |}).
-          assert (Hexit : meq (exec_list call bound (if cov "normal_exit_while" then sapp (instr_ss H (kc k) orelse) (s1 (rstmt (REvent "_exit_while_" n))) else instr_ss H (kc k) orelse))
+          assert (Hexit : meq (exec_list calli bound (if cov "normal_exit_while" then sapp (instr_ss H (kc k) orelse) (s1 (rstmt (REvent "_exit_while_" n))) else instr_ss H (kc k) orelse))
                               (bind (rexec_list k orelse) (fun _ =>
                                if cov "normal_exit_while" then
                                  bind (announce true true n) (fun _ => bind (ev "exit_control_flow" n []) (fun _ =>
@@ -2070,10 +2181,10 @@ Section Sem.
                                else ret tt))).
           { destruct (cov "normal_exit_while").
             - rewrite exec_list_app, IHo. mstep. unfold s1, rstmt. rewrite exec_list_cons, exec_list_nil.
-              change (exec call bound (SExpr (REvent "_exit_while_" n))) with (bind (eval call (REvent "_exit_while_" n)) (fun _ => ret tt)).
+              change (exec calli bound (SExpr (REvent "_exit_while_" n))) with (bind (eval calli (REvent "_exit_while_" n)) (fun _ => ret tt)).
               rewrite eval_unfold. cbn [eval_body]. unfold rt_event. rewrite announce_on_cf. mnorm. msteps. reflexivity.
             - rewrite IHo. rewrite <- (bind_ret_r (rexec_list k orelse)) at 1. mstep. destruct a. reflexivity. }
-          assert (Htest : meq (eval_test call (if cov "enter_while" then REnterWhile n (instr_e H c0 c) else instr_e H c0 c))
+          assert (Htest : meq (eval_test calli (if cov "enter_while" then REnterWhile n (instr_e H c0 c) else instr_e H c0 c))
                               (if cov "enter_while" then
                                  bind (test_value rc0 c) (fun vt =>
                                  bind (announce true true n) (fun _ =>
@@ -2098,7 +2209,7 @@ Section Sem.
           rewrite instr_SFor, rexec_SFor. cbv zeta.
           change (sel H "enter_for") with (cov "enter_for"). change (sel H "normal_exit_for") with (cov "normal_exit_for").
           change {| loop := Some (n, 1%Z); fn := fn (kc k) |} with (kc {| r_loop := Some (n, true); r_fn := r_fn k |}).
-          assert (Hev : meq (bind (eval call (REvent "_exit_for_" n)) (fun _ => ret tt)) (for_exit n)).
+          assert (Hev : meq (bind (eval calli (REvent "_exit_for_" n)) (fun _ => ret tt)) (for_exit n)).
           { rewrite eval_unfold. cbn [eval_body]. unfold rt_event, for_exit. rewrite announce_on_cf. mnorm. msteps. reflexivity. }
           destruct (cov "enter_for") eqn:C1; [|destruct (cov "normal_exit_for") eqn:C2]; rewrite exec_SFor.
           + change c0 with (ic rc0). rewrite (RE_ it Hs1 Ho1 rc0). mstep. mstep.
@@ -2168,8 +2279,8 @@ Section Sem.
           destruct (cov "_raise") eqn:C1; unfold rstmt; cbn [exec].
           Opaque rexec exec.
           + rewrite eval_unfold. cbn [eval_body].
-            change (match instr_oe H c0 ex with Some a => bind (eval call a) (fun v => ret (Some v)) | None => ret None end) with (eval_opt call (instr_oe H c0 ex)).
-            change (match instr_oe H c0 ca with Some a => bind (eval call a) (fun v => ret (Some v)) | None => ret None end) with (eval_opt call (instr_oe H c0 ca)).
+            change (match instr_oe H c0 ex with Some a => bind (eval calli a) (fun v => ret (Some v)) | None => ret None end) with (eval_opt calli (instr_oe H c0 ex)).
+            change (match instr_oe H c0 ca with Some a => bind (eval calli a) (fun v => ret (Some v)) | None => ret None end) with (eval_opt calli (instr_oe H c0 ca)).
             change c0 with (ic rc0). rewrite (refine_oe ex rc0 Hs1 Ho1). mtop. mstep.
             rewrite (refine_oe ca rc0 Hs2 Ho2). mtop. mstep.
             unfold rt_raise. rewrite announce_on_cf. ms. ms. ms. mtop.
@@ -2186,21 +2297,21 @@ Section Sem.
           specialize (IHb Hs1 Ho1 k). specialize (IHh Hs2 Ho2 k n). specialize (IHo Hs3 Ho3 k). specialize (IHf Hs4 Ho4 k).
           rewrite instr_STry, rexec_STry. cbv zeta. rewrite exec_STry.
           change (sel H "enter_try") with (cov "enter_try"). change (sel H "clean_exit_try") with (cov "clean_exit_try").
-          assert (Hb : meq (exec_list call bound (if cov "enter_try" then Scons (rstmt (REvent "_try_" n)) (instr_ss H (kc k) body) else instr_ss H (kc k) body))
+          assert (Hb : meq (exec_list calli bound (if cov "enter_try" then Scons (rstmt (REvent "_try_" n)) (instr_ss H (kc k) body) else instr_ss H (kc k) body))
                            (bind (if cov "enter_try" then bind (announce true true n) (fun _ => bind (ev "enter_try" n []) (fun _ => ret tt)) else ret tt)
                                  (fun _ => rexec_list k body))).
           { destruct (cov "enter_try").
             - unfold rstmt. rewrite exec_list_cons. Transparent exec. cbn [exec]. Opaque exec.
               rewrite eval_unfold. cbn [eval_body]. unfold rt_event. rewrite announce_on_cf. ms. ms. ms. mtop. apply IHb.
             - mtop. apply IHb. }
-          assert (Hor : meq (exec_list call bound (if cov "clean_exit_try" then sapp (instr_ss H (kc k) orelse) (s1 (rstmt (REvent "_end_try_" n))) else instr_ss H (kc k) orelse))
+          assert (Hor : meq (exec_list calli bound (if cov "clean_exit_try" then sapp (instr_ss H (kc k) orelse) (s1 (rstmt (REvent "_end_try_" n))) else instr_ss H (kc k) orelse))
                             (bind (rexec_list k orelse) (fun _ =>
                                if cov "clean_exit_try" then bind (announce true true n) (fun _ => bind (ev "clean_exit_try" n []) (fun _ => ret tt)) else ret tt))).
           { destruct (cov "clean_exit_try").
             - rewrite exec_list_app, IHo. mstep. unfold s1, rstmt. rewrite exec_list_cons, exec_list_nil. Transparent exec. cbn [exec]. Opaque exec.
               rewrite eval_unfold. cbn [eval_body]. unfold rt_event. rewrite announce_on_cf. ms. ms. ms. mtop. reflexivity.
             - rewrite IHo. rewrite <- (bind_ret_r (rexec_list k orelse)) at 1. mstep. destruct a. reflexivity. }
-          assert (Hh : forall e, meq (exec_handlers call bound e
+          assert (Hh : forall e, meq (exec_handlers calli bound e
                                         (if cov "enter_try" || cov "clean_exit_try" then
                                            match instr_hs H (kc k) n hs with Hnil => Hcons None None (s1 (SRaise 0 None None)) Hnil | _ => instr_hs H (kc k) n hs end
                                          else instr_hs H (kc k) n hs))
@@ -2213,7 +2324,7 @@ Section Sem.
           apply bind_cong; [apply catch_cong; destruct r; try reflexivity; [exact Hor|apply Hh]|intros r'].
           apply bind_cong; [apply catch_cong; exact IHf|intros rf]. reflexivity.
         - (* SReturn *) intros n e Hs Ho k. simpl in Hs, Ho.
-          assert (Hv : meq (match instr_oe H c0 e with Some a => eval call a | None => ret (p_const KNone) end)
+          assert (Hv : meq (match instr_oe H c0 e with Some a => eval calli a | None => ret (p_const KNone) end)
                            (match e with Some a => reval rc0 a | None => ret (p_const KNone) end)).
           { destruct e as [a|]; [|reflexivity]. cbn [instr_oe]. change c0 with (ic rc0). apply (RE_ a Hs Ho rc0). }
           cbn [instr_s]. Transparent rexec exec. cbn [rexec]. change (fn (kc k)) with (r_fn k).
@@ -2234,7 +2345,7 @@ Section Sem.
           specialize (IHb Hs2 Ho2 k). specialize (IHr Hs3 Ho3 k tryn e).
           rewrite instr_hs_cons, rexec_handlers_cons. cbv zeta. rewrite exec_handlers_cons.
           change (sel H "exception") with (cov "exception").
-          assert (Hm : meq (match instr_oe H c0 ty with None => ret true | Some te => bind (eval call te) (fun cls => prim (p_exc_match e cls)) end)
+          assert (Hm : meq (match instr_oe H c0 ty with None => ret true | Some te => bind (eval calli te) (fun cls => prim (p_exc_match e cls)) end)
                            (bind (reval_opt rc0 ty) (fun tv => match tv with None => ret true | Some cls => prim (p_exc_match e cls) end))).
           { destruct ty as [te|]; cbn [instr_oe reval_opt]; [|mtop; reflexivity].
             change c0 with (ic rc0). rewrite (RE_ te Hs1 Ho1 rc0). mtop. reflexivity. }
@@ -2243,7 +2354,7 @@ Section Sem.
           destruct (cov "exception").
           * unfold rstmt. rewrite exec_list_cons. Transparent exec. cbn [exec]. Opaque exec.
             rewrite eval_unfold. cbn [eval_body].
-            assert (Ht : meq (match instr_oe H c0 ty with Some te => bind (eval call te) (fun v => ret (AV v)) | None => ret ANone end)
+            assert (Ht : meq (match instr_oe H c0 ty with Some te => bind (eval calli te) (fun v => ret (AV v)) | None => ret ANone end)
                              (bind (reval_opt rc0 ty) (fun tv2 => ret (match tv2 with Some v => AV v | None => ANone end)))).
             { destruct ty as [te|]; cbn [instr_oe reval_opt]; [|mtop; reflexivity].
               change c0 with (ic rc0). rewrite (RE_ te Hs1 Ho1 rc0). mtop. reflexivity. }
@@ -2258,6 +2369,7 @@ Section Sem.
   End Ref.
 
   (* ---------------------------------------------------------------- functions, fuel, programs *)
+  Section Run.
   Variable funs : list fundef.
 
   Definition push_frame (fd : fundef) (args : list val) : M unit :=
@@ -2353,7 +2465,73 @@ Section Sem.
       else (if wrapped then end_execution else ret tt) ;; raise e
     | other => (if wrapped then end_execution else ret tt) ;; reraise other
     end.
+  End Run.
 
+  (* ================================================================ refinement at function and module level
+     The instrumented program (instrumented bodies, called through the instrumented function table) under the
+     runtime model = the reference semantics of the source program (source bodies, source function table). *)
+  Section RunRefinement.
+    Variable H : list string.
+    Variable funs : list fundef.
+    Variable tr : val -> bool.
+    Hypothesis truth_pure : forall v w0, p_truth v w0 = (POk (tr v), w0).
+    Hypothesis tr_bool : forall b, tr (p_const (KBool b)) = b.
+
+    Definition fun_ok (fd : fundef) : bool := src_ss (f_body fd) && ok_ss H (f_body fd).
+    Hypothesis funs_ok : forallb fun_ok funs = true.
+
+    Ltac mstep := apply bind_cong; [reflexivity|intros ?].
+    Ltac mtop := repeat match goal with
+      | |- meq (bind (bind ?m ?k) ?h) _ => apply (meq_rw_l _ _ _ (bind_assoc m k h)); cbv beta
+      | |- meq (bind (ret ?a) ?k) _ => apply (meq_rw_l _ _ _ (bind_ret_l a k)); cbv beta
+      | |- meq _ (bind (bind ?m ?k) ?h) => apply (meq_rw_r _ _ _ (bind_assoc m k h)); cbv beta
+      | |- meq _ (bind (ret ?a) ?k) => apply (meq_rw_r _ _ _ (bind_ret_l a k)); cbv beta
+      end.
+    Ltac ms := mtop; mstep.
+
+    Theorem refine_fun : forall fuel fid args,
+      meq (run_fun (map (instr_fun H) funs) fuel fid args) (rrun_fun funs H fuel fid args).
+    Proof.
+      induction fuel as [|f IH]; intros fid args; [reflexivity|].
+      cbn [run_fun rrun_fun]. rewrite nth_error_map.
+      destruct (nth_error funs fid) as [fd|] eqn:E; cbn [option_map]; [|reflexivity].
+      assert (Hfd : fun_ok fd = true).
+      { apply nth_error_In in E. rewrite forallb_forall in funs_ok. apply funs_ok; exact E. }
+      unfold fun_ok in Hfd. apply andb_true_iff in Hfd; destruct Hfd as [Hs Ho].
+      cbv zeta.
+      change (push_frame (instr_fun H fd) args) with (push_frame fd args). mstep.
+      apply bind_cong; [apply catch_cong|intros r; reflexivity].
+      pose (k := {| r_loop := None; r_fn := Some (f_nid fd, f_name fd) |}).
+      assert (Hbody : meq (exec_list (run_fun (map (instr_fun H) funs) f) f (instr_ss H {| loop := None; fn := Some (f_nid fd, f_name fd) |} (f_body fd)))
+                          (rexec_list H (rrun_fun funs H f) f k (f_body fd))).
+      { exact (proj1 (proj2 (refine_stmt H (rrun_fun funs H f) f tr truth_pure (run_fun (map (instr_fun H) funs) f) IH tr_bool)) (f_body fd) Hs Ho k). }
+      set (ci := run_fun (map (instr_fun H) funs) f) in *.
+      unfold instr_fun. cbn [f_body f_nid f_name f_params].
+      change (sel H "function_enter" || sel H "implicit_return") with (cov H "function_enter" || cov H "implicit_return").
+      destruct (cov H "function_enter" || cov H "implicit_return").
+      - unfold rstmt. rewrite exec_list_cons.
+        change (exec ci f (SExpr (RFuncEntry (f_nid fd) (f_params fd) (f_name fd))))
+          with (bind (eval ci (RFuncEntry (f_nid fd) (f_params fd) (f_name fd))) (fun _ => ret tt)).
+        rewrite eval_unfold. cbn [eval_body]. unfold rt_func_entry. rewrite announce_on_cf. ms. ms. ms. mtop.
+        rewrite exec_list_app. rewrite Hbody. mstep. unfold s1. rewrite exec_list_cons, exec_list_nil.
+        change (exec ci f (SExpr (RFuncExit (f_nid fd) (f_name fd))))
+          with (bind (eval ci (RFuncExit (f_nid fd) (f_name fd))) (fun _ => ret tt)).
+        rewrite eval_unfold. cbn [eval_body]. unfold rt_func_exit. rewrite announce_on_cf. ms. ms. ms. ms. mtop. reflexivity.
+      - mtop. rewrite Hbody. rewrite <- (bind_ret_r (rexec_list H (rrun_fun funs H f) f k (f_body fd))) at 1.
+        mstep. destruct a0. reflexivity.
+    Qed.
+
+    Theorem refine_module fuel wrapped main :
+      src_ss main = true -> ok_ss H main = true ->
+      meq (run_module (map (instr_fun H) funs) fuel wrapped (instr_ss H {| loop := None; fn := None |} main))
+          (rrun_module funs H fuel wrapped main).
+    Proof.
+      intros Hs Ho. unfold run_module, rrun_module. mstep.
+      apply bind_cong; [apply catch_cong|intros r; reflexivity].
+      exact (proj1 (proj2 (refine_stmt H (rrun_fun funs H fuel) fuel tr truth_pure (run_fun (map (instr_fun H) funs) fuel)
+                                       (refine_fun fuel) tr_bool)) main Hs Ho {| r_loop := None; r_fn := None |}).
+    Qed.
+  End RunRefinement.
 
 End Sem.
 
